@@ -137,4 +137,6 @@ MUTANTS = [
     ("C18", "tola.assembly.build_utils.StartOverhangPremise.apply", "tola.assembly.build_utils", "        self.scaffold.discard_start()", "        self.scaffold.discard_end()"),
     ("C18", "tola.assembly.build_utils.EndOverhangPremise.apply", "tola.assembly.build_utils", "        self.scaffold.discard_end()", "        self.scaffold.discard_start()"),
     ("C01", "tola.assembly.build_utils.EndOverhangPremise.apply", "tola.assembly.build_utils", "        self.scaffold.discard_end()", "        self.scaffold.discard_end()\n        self.scaffold.discard_end()"),
+    ("C01", "tola.assembly.build_utils.OverhangPremise.makes_worse", "tola.assembly.build_utils", "        return not self.improves(err_length)", "        return self.improves(err_length)"),
+    ("C01", "tola.assembly.build_utils.FoundFragment.scaffold_count", "tola.assembly.build_utils", "        return len(self.scaffolds)", "        return len(self.scaffolds) - 1"),
 ]
